@@ -27,12 +27,12 @@ func registerMoreIntrinsics(e *Engine) {
 	}
 	e.intr[dgo+"internal/rt.UnpackType"] = func(st *State, fn *ssa.Function, args []Value, ret func(Value)) {
 		id := st.allocN(64, nil, "opaque *rt.GoType")
-		st.objs[id].Poison = "opaque runtime type descriptor"
+		st.newObj(id).Poison = "opaque runtime type descriptor"
 		ret(Ptr{id, e.k64(0)})
 	}
 	e.intr[dgo+"internal/rt.UnpackEface"] = func(st *State, fn *ssa.Function, args []Value, ret func(Value)) {
 		tid := st.allocN(64, nil, "opaque *rt.GoType")
-		st.objs[tid].Poison = "opaque runtime type descriptor"
+		st.newObj(tid).Poison = "opaque runtime type descriptor"
 		vid := st.allocN(16, nil, "opaque eface data")
 		ret(Struct{Ptr{tid, e.k64(0)}, Ptr{vid, e.k64(0)}})
 	}
